@@ -18,7 +18,7 @@ func init() {
 		Explanation: "Decided (each a necessary condition of recovery that is visible in the code's shape): BITS the server sets bit i (byte i/8, bit i%8, LSB first) iff it holds a record for slot offset+i (PowerOutput > 0, a ban counts) and the client tests the same bit; " +
 			"RESEND the client's resend loop runs i from 0 while i <= latest - offset and i/8 < 504; for a clear bit it loads slot offset+i from its history, skips it iff the load failed or the value is below 2, and otherwise sends (offset+i, uint64(int32(value))) through the one sender function; " +
 			"so what is re-sent is a function of the server's bitfield and the local history only, independent of which datagrams or earlier syncs were lost; CHAIN the original path stores uint32(E) and sends E, the resend path sends uint64(int32(stored)): composed, this is the identity for every E that is the sign extension of a 32-bit value " +
-			"(evaluated on the boundary cells of that domain), so a retransmission is byte-identical to the original (same sender, same signing bytes; deterministic signing is trusted); IDEMPOTENT the server ignores an identical replay (C02's ABSORB rule, re-checked). " +
+			"(evaluated on the boundary cells of that domain), so a retransmission is byte-identical to the original (same sender, same signing bytes; deterministic signing is trusted); WRITE-ONCE the history the retransmission is read from never changes a stored reading (the rule of C09, re-run); IDEMPOTENT the server ignores an identical replay (C02's ABSORB rule, re-checked). " +
 			"NOT decided: the fault-sequence quantifier itself (which datagrams are lost, which sync attempts fail), timing and 'eventually'; readings outside the signed 32-bit range (outside the property's stated domain).",
 		Assumptions: append([]string{"glow.Sign is deterministic (RFC 6979, trusted)", "UDP delivers a datagram unchanged or not at all"}, baseAssumptions...),
 		Run:         runC08,
@@ -224,6 +224,9 @@ func runC08(c *an.Ctx) {
 		c.Check(ok && nSt > 0, "IDEMPOTENT", integ, integ.Pos(), an.KeyOf(integ, "replay-noop"), "on the server an identical retransmission changes nothing (every state change of the integrator is dominated by slot != report), so recovery can never ban the device's own slot", fmt.Sprintf("%d stores checked", nSt))
 	}
 	c.Count("RESEND", 8)
+	// the history a retransmission is read from is write-once (rule owned by C09, re-run here:
+	// otherwise the re-sent value can differ from the one originally sent)
+	writeOnce(c, saver, loader)
 }
 
 // bigExpr evaluates "2^a-2^b", "2^a-k", "2^a", "k".
